@@ -2178,10 +2178,17 @@ def main():
     body = "\n\n".join(text for _, text in tr.out)
     tail = "\n\nend Chess.Gen.Fns\n"
     os.makedirs(os.path.dirname(OUT), exist_ok=True)
-    tmp = OUT + ".tmp"
-    with open(tmp, "w", encoding="utf-8") as f:
-        f.write(head + body + tail)
-    os.replace(tmp, OUT)
+    text = head + body + tail
+    try:
+        with open(OUT, encoding="utf-8") as f:
+            same = f.read() == text
+    except OSError:
+        same = False
+    if not same:                                   # several checks may run at once: private temporary name, atomic replace
+        tmp = OUT + ".tmp%d" % os.getpid()
+        with open(tmp, "w", encoding="utf-8") as f:
+            f.write(text)
+        os.replace(tmp, OUT)
     if "-q" not in sys.argv:
         for lname, loc in tr.summary:
             print(f"translate: {lname:45s} <- {loc}")
